@@ -420,7 +420,7 @@ Qed.
 Lemma sumZ_count rc U : NoDup U -> incl rc U -> sumZ (fun a => Z.of_nat (count a rc)) U = Z.of_nat (length rc).
 Proof.
   intros Hnd. induction rc as [|w rc IH]; intro Hinc.
-  - simpl. induction U; simpl; auto. apply IHU. inversion Hnd; auto.
+  - simpl. clear. induction U; simpl; auto.
   - rewrite (sumZ_ext _ (fun a => ind (Nat.eqb a w) + Z.of_nat (count a rc))).
     + rewrite sumZ_plus, sumZ_indicator by exact Hnd. rewrite IH.
       * assert (Hm : mem w U = true) by (apply mem_In; apply Hinc; left; reflexivity).
@@ -443,7 +443,7 @@ Proof.
   rewrite (sumZ_ext _ (fun a => q * Z.of_nat (count a rc) + ((- F) * ind (Nat.eqb a (t_signer t))
                                  + (F - Z.of_nat (length rc) * q) * ind (Nat.eqb a (e_collector E))))).
   - rewrite sumZ_plus, sumZ_plus, !sumZ_scale, sumZ_count, !sumZ_indicator by assumption.
-    apply mem_In in Hs, Hc. rewrite Hs, Hc. unfold ind. lia.
+    apply mem_In in Hs, Hc. rewrite Hs, Hc. unfold ind. ring.
   - intro a. rewrite Hf. unfold pay_formula. fold rc q F. unfold ind.
     destruct (Nat.eqb a (t_signer t)), (Nat.eqb a (e_collector E)); lia.
 Qed.
